@@ -124,6 +124,12 @@ M = [
  ("randomly-cap", ["C18"], "mosaik/util.py",
   "        if connects[dest] >= max_connects:", "        if connects[dest] > max_connects:",
   "max_connects exceeded by one"),
+ ("otime-check-cache-only", ["C13"], "mosaik/scheduler.py",
+  "        if sim.last_step.time > output_time:\n            raise SimulationError(", "        if sim.outputs is not None and sim.last_step.time > output_time:\n            raise SimulationError(",
+  "output-time validation only with the cache on (sub-agent's bonus mutant, re-created)"),
+ ("shift-keeps-subtime", ["C09"], "mosaik/scenario.py",
+  "        cutoff = 1\n    return TieredInterval(*list_tiers, cutoff=cutoff, pre_length=pre_length)", "        pass\n    return TieredInterval(*list_tiers, cutoff=cutoff, pre_length=pre_length)",
+  "reverts 3e5c08a: time-shifted connections keep the source's sub-time"),
 ]
 
 def main():
